@@ -158,9 +158,10 @@ Definition sm_step (sp : sprog) (st : sm) : sm * list event * bool :=
   | [] =>
       match s_rest st with
       | nxt :: more =>
-          (* yywrap supplied another source: same start condition, beginning of line *)
+          (* yywrap supplied another source: same start condition, beginning of line;
+             text kept by yymore() still prefixes the next token *)
           ({| s_inp := nxt; s_rest := more; s_sc := s_sc st; s_stack := s_stack st;
-              s_bol := true; s_line := s_line st; s_more := []; s_done := s_done st |}, [], true)
+              s_bol := true; s_line := s_line st; s_more := s_more st; s_done := s_done st |}, [], true)
       | [] =>
           let ops := match sp_eof sp (s_sc st) with Some o => o | None => [OTerminate] end in
           let '(st', _, _, ev, c) := exec (sp_lineno sp) ops st [] false in
